@@ -89,7 +89,10 @@ def gen_cfg(rng):
             "origins": rng.choice([1, 2, 2, 3]), "requests_per_thread": rng.choice([1, 2, 2, 3]), "http2": rng.random() < 0.2,
             "switch_prob": rng.choice([0.05, 0.2, 0.5]), "modes": rng.choice([["read"], ["read", "read", "partial"]]),
             "policies": rng.choice([["default_policy"], ["default_policy", "closing_policy", "long_policy"]]),
-            "trace_lines": True, "hot": rng.random() < 0.4, "p_faulty": rng.choice([0.0, 0.0, 0.25])}
+            "trace_lines": True, "hot": rng.random() < 0.4, "p_faulty": rng.choice([0.0, 0.0, 0.25]),
+            # how the pool reaches the origins, and "HTTP/2 enabled but every server settles for HTTP/1.1" (requests then share a
+            # connection while it is being established and are sent back to the pool once it turns out to be HTTP/1.1)
+            "kind": rng.choice(["direct", "direct", "direct", "socks5", "tunnel", "forward"]), "h2_offer": rng.random() < 0.35}
 
 
 def run_one(cfg, seed):
@@ -100,7 +103,10 @@ def run_one(cfg, seed):
     peers = []
     import scen
 
-    def peer_factory(rec):
+    ckind = cfg.get("kind", "direct") if not cfg["http2"] else "direct"
+    h2_offer = bool(cfg.get("h2_offer")) and not cfg["http2"] and ckind != "forward"
+
+    def origin_peer(_t=None):
         if cfg["http2"]:
             p = simnet.H2Peer(handler=scen.h2_handler_factory([]))
             p.reqs = {}
@@ -108,6 +114,17 @@ def run_one(cfg, seed):
             p = servers.H1Server(policy=getattr(servers, rng.choice(cfg["policies"])))
         peers.append(p)
         return p
+
+    def peer_factory(rec):
+        if ckind == "socks5":
+            return servers.SocksServer(inner_factory=origin_peer)
+        if ckind == "tunnel":
+            return servers.ProxyServer(inner_factory=origin_peer)
+        if ckind == "forward":
+            p = servers.ProxyServer()
+            p.forward = origin_peer()
+            return p
+        return origin_peer()
 
     net = simnet.Net(PointBehavior(sched, peer_factory))
     orig_begin = net.begin
@@ -118,9 +135,14 @@ def run_one(cfg, seed):
         return orig_begin(rec)
     net.begin = begin
     kw = dict(max_connections=cfg["max_connections"], max_keepalive_connections=cfg["max_keepalive"], network_backend=simnet.SimBackend(net),
-              http2=cfg["http2"])
-    if cfg["http2"]:
+              http2=cfg["http2"] or h2_offer)
+    tls = cfg["http2"] or h2_offer or ckind == "tunnel"
+    if tls:
         kw["ssl_context"] = simnet.RecordingSSLContext()
+    if ckind in ("tunnel", "forward"):
+        kw["proxy"] = httpcore.Proxy("http://proxy.example:3128")
+    elif ckind == "socks5":
+        kw["proxy"] = httpcore.Proxy("socks5://socks.example:1080")
     violations = []
     plans = {}
     for t in range(cfg["threads"]):
@@ -153,7 +175,7 @@ def run_one(cfg, seed):
                     retired_assigned.append((conn, [r.request.url.target for r in users]))
             return closing
         pool._assign_requests_to_connections = traced_pass
-        scheme = "https" if cfg["http2"] else "http"
+        scheme = "https" if tls else "http"
 
         def worker(plan):
             def fn():
@@ -191,7 +213,8 @@ def run_one(cfg, seed):
             violations.append(("C08:internal-error", {"thread": name, "exception": repr(val)[:200]}))
         elif kind == "ok":
             for r, (tok, origin, mode, body) in zip(val, plans[name]):
-                want = b"echo:/" + tok.encode() + b":" + (body or b"")
+                target = (f"{scheme}://o{origin}.example/{tok}".encode() if ckind == "forward" else b"/" + tok.encode())
+                want = b"echo:" + target + b":" + (body or b"")
                 if r["outcome"] != "ok" and tok in faulty and r["outcome"] == "error:ReadError":
                     continue            # the injected failure of this very request
                 if r["outcome"] != "ok":
